@@ -438,6 +438,27 @@ def gen_site_cases(ck, n):
             order = list(range(1, nv + 1)); rng.shuffle(order)
             add({"op": "dseq", "edges": edges, "nodes": order, "entry": 1},
                 "dseq %s %s 1" % (",".join("%d>%d" % e for e in edges) or "-", csv(order)))
+        # if_struct(graph, idoms): rooted graph, random conditional nodes, numbers (a permutation; one case in eight
+        # with a tie), a random idoms dict in a shuffled insertion order; the set `unresolved` is enumerated by the
+        # real code in hash order (salted), by the model in insertion order
+        nv = rng.randrange(2, 11)
+        edges = [(rng.randrange(1, i), i) for i in range(2, nv + 1)]
+        for _e in range(rng.randrange(0, nv + 3)):
+            e = (rng.randrange(1, nv + 1), rng.randrange(1, nv + 1))
+            if e not in edges:
+                edges.append(e)
+        rng.shuffle(edges)
+        conds = [i for i in range(1, nv + 1) if rng.random() < 0.6]
+        perm = list(range(1, nv + 1)); rng.shuffle(perm)
+        nums = {str(i): perm[i - 1] for i in range(1, nv + 1)}
+        if rng.randrange(8) == 0:
+            nums[str(rng.randrange(1, nv + 1))] = rng.randrange(1, nv + 1)
+        idoms = [(i, rng.randrange(1, nv + 1)) for i in range(2, nv + 1)]
+        rng.shuffle(idoms)
+        add({"op": "ifst", "edges": edges, "entry": 1, "conds": conds, "nums": nums, "idoms": idoms},
+            "ifst %s 1 %s %s %s" % (",".join("%d>%d" % e for e in edges) or "-", csv(conds),
+                                    ",".join("%d=%d" % p for p in idoms) or "-",
+                                    ",".join("%s=%d" % (k, v) for k, v in nums.items())))
     # fixed cases: the witnesses of Props/C22.lean (`derived_sequence_nodes_order_matters`: same graph, two
     # insertion orders of graph.nodes, 2 resp. 3 intervals at the second level; the irreducible triangle that
     # collapses because the edge 2>3 is not recorded; a loop nest)
@@ -568,9 +589,14 @@ def _run(ck, pool, drv):
         "first-level contents (derived_sequence_order_irrelevant); it DOES depend on the insertion order of graph.nodes, "
         "a list (derived_sequence_nodes_order_matters, replayed on the real code). Well-formed = rpo[0] is the entry, "
         "every other node has a predecessor and is in rpo, graph.nodes has no duplicate (true of a graph whose nodes are "
-        "all reachable). NOT proved: the consumers of the derived sequence (loop_type, the part of loop_follow outside "
-        "loop_follow_order_irrelevant, if_struct / switch_struct follow-node choice, whose unresolved sets are covered "
-        "by independent_updates_order_irrelevant only)",
+        "all reachable). if_struct is modelled whole (Model/IfStruct.lean, stream site-ifst: "
+        "real if_struct under salted hash orders vs the model) with the enumeration of the set `unresolved` and the order "
+        "of the dict idoms as parameters, and proved independent of both when the numbers of the idoms keys are pairwise "
+        "different, in particular for compute_rpo numbers (if_struct_order_irrelevant, if_struct_order_irrelevant_rpo; "
+        "if_follow_tie_order_matters shows the hypothesis is needed). NOT proved: the other consumers of the derived "
+        "sequence (loop_type, the part of loop_follow outside loop_follow_order_irrelevant) and switch_struct (its "
+        "follow node is the same max over idoms as in if_struct, its unresolved set is covered by "
+        "independent_updates_order_irrelevant only)",
     ]
     ck.notes.append("corpus+T+sweep %.0fs; %d distinct-DEX files (%d duplicates skipped)" % (time.time() - t0, len(files), dups))
     if not salted:
